@@ -9,3 +9,6 @@ package reddit
 //@   property C10
 //@   opaque
 //@   sweep idx slice div assert
+
+// every other function of the package (helpers added later included)
+//@ sweepall C10 idx slice div assert
